@@ -167,6 +167,18 @@ class World(object):
                             and not any(ev["a"] in ("reload", "direct_harvest") for ev in case["hist"]))
         if self.memory_only:
             self.data_name = None          # an in-memory Harvester / Sampler
+        # a data name relative to the working directory (which is not the crop's parent directory)
+        self.oldcwd = None
+        if (variant.get("rel_data") and self.data_name is not None and cfg["cause"] == "none"
+                and self.farmer_kind in ("harvester", "sampler")):
+            self.cwd = os.path.join(self.tmp, "cwd")
+            os.makedirs(self.cwd)
+            self.oldcwd = os.getcwd()
+            os.chdir(self.cwd)
+            self.data_abs = os.path.join(self.cwd, os.path.basename(self.data_name))
+            self.data_name = os.path.basename(self.data_name)
+        else:
+            self.data_abs = self.data_name
         self.crop = None
         self.sibling_files = None
         self.farmer = None
@@ -175,6 +187,8 @@ class World(object):
 
     # -- helpers -------------------------------------------------------------
     def close(self):
+        if self.oldcwd is not None:
+            os.chdir(self.oldcwd)
         shutil.rmtree(self.tmp, ignore_errors=True)
 
     def set_failing(self, ids):
@@ -184,8 +198,8 @@ class World(object):
     def data_file(self):
         from xyzpy.manage import auto_add_extension
         if self.farmer_kind == "harvester":
-            return auto_add_extension(self.data_name, self.engine)
-        return self.data_name
+            return auto_add_extension(self.data_abs, self.engine)
+        return self.data_abs
 
     def runner(self, broken):
         xyz = self.xyz
@@ -357,7 +371,14 @@ def observe(w):
 
 def compare_obs(w, post, step):
     """None or a message when the real crop contradicts the model's observation."""
-    o = observe(w)
+    try:
+        o = observe(w)
+    except Exception as e:  # noqa
+        import traceback as _tb
+        fr = _tb.extract_tb(e.__traceback__)
+        if not any("xyzpy" in (f.filename or "") for f in fr):
+            raise                  # our own mistake, not the library's
+        return "a progress query raised %s: %s" % (type(e).__name__, str(e)[:200])
     if post["dir"] == "deleted":
         if o["dir"] != "deleted":
             return "crop directory still exists (%s), model says it was deleted" % o["dir"]
@@ -399,7 +420,7 @@ def read_batches(w):
             kw = dict(kw)
             extra = {k: kw.pop(k) for k in list(kw) if k not in w.names}
             extra.pop("t", None)
-            want_extra = {"kattr": 7 + w.expect_k}
+            want_extra = {"kattr": 8 if (w.variant.get("sow_override") and w.farmer_kind != "none") else 7 + w.expect_k}
             if w.rsc:
                 want_extra["rsc"] = 5
             if extra != want_extra or set(kw) != set(w.names):
@@ -595,7 +616,10 @@ def check_store(w, store_ids, extra=0):
         listing = sorted(os.listdir(os.path.dirname(f))) if os.path.isdir(os.path.dirname(f)) else None
         return None if not ids else "harvester file %s missing although %d settings were delivered (dir: %r)" % (
             os.path.basename(f), len(ids), listing)
-    ds = w.xyz.load_ds(f, engine=w.engine)
+    try:
+        ds = w.xyz.load_ds(f, engine=w.engine)
+    except Exception as e:  # noqa
+        return "harvester file %s cannot be loaded with its engine any more: %s: %s" % (os.path.basename(f), type(e).__name__, str(e)[:160])
     try:
         for i, loc in enumerate(w.case["settings"]):
             i += 1
@@ -668,6 +692,10 @@ def do_step(w, ev):
                     elif cfg["bmode"] == "count":
                         kw["num_batches"] = cfg["bval"]
                 consts = {"kattr": 7} if w.farmer_kind == "none" else None
+                if w.variant.get("sow_override") and w.farmer_kind != "none":
+                    # a constant given to the sow call wins over the farmer's stored constant of the same name
+                    # (as constants= given to Runner.run_combos does); only used by histories that never grow
+                    consts = {"kattr": 8}
                 if cfg["kind"] == "combos":
                     if cfg["shufSow"] != -1:
                         kw["shuffle"] = w.seed_value(cfg["shufSow"]) if cfg["shufSow"] else False
@@ -951,7 +979,7 @@ def default_variants(case, idx):
              np_values=(k % 5 == 2), reload_ctor_args=(k % 2 == 1), early_handle=(k % 3 == 0), memory_only=(k % 4 == 3),
              resources=(k % 3 != 1), path_words=(k % 4 == 1), no_autoload=(k % 4 in (1, 3)), observer_fresh=(k % 4 in (0, 1)),
              bare_case_dict=(k % 2 == 0), cases_combos_rev=(k % 4 == 2), early_resow=(k % 6 == 0),
-             ids_spelling=["tuple", "gen", "list", "iter", "tuple"][k % 5], reap_wait=(k % 3 == 0), sibling=(k % 2 == 1))
+             ids_spelling=["tuple", "gen", "list", "iter", "tuple"][k % 5], reap_wait=(k % 3 == 0), sibling=(k % 2 == 1), rel_data=(k % 4 == 2))
     if cfg["farmer"] == "none":
         v["result"] = ["scalar", "xy", "array", "str", "bool"][k % 5]
     else:
@@ -1011,6 +1039,7 @@ def drive(rep, runs, claims=None, variants=default_variants):
             idx += 1
     results = common.pmap(_job, jobs)
     off = 0
+    harness = []
     for case, variant, prob, tag, step, notes in results:
         acts = [ev["a"] for ev in case["hist"]]
         rep.add_case([case["cfg"], case["perm1"], [(ev["a"], ev["args"]) for ev in case["hist"]], variant],
@@ -1019,7 +1048,8 @@ def drive(rep, runs, claims=None, variants=default_variants):
                                  hist=[[ev["a"], ev["args"], ev["post"]["outcome"]] for ev in case["hist"]], variant=variant)
                      if len(rep.samples) < 3 and len(acts) >= 3 else None)
         if prob and tag == "harness":
-            raise RuntimeError(prob)
+            harness.append(prob)
+            continue
         for nt in notes[:1]:
             rep.note("note: " + nt)
         if prob:
@@ -1030,6 +1060,9 @@ def drive(rep, runs, claims=None, variants=default_variants):
                 if off <= 5:
                     rep.note("off-property mismatch (%s), reported by the owning check: %s" % (tag, prob[:200]))
     rep.extra["off_property_mismatches"] = off
+    if harness:
+        # (after the loop: violations established by the other replays are reported by the driver)
+        raise RuntimeError("%d replay(s) ended in a harness exception, first: %s" % (len(harness), harness[0]))
     return results
 
 
